@@ -2,4 +2,6 @@
 EXTENDS BatchScheduleTrace
 MCNone == {}
 MCNoSeq == {<<>>}
+MCDBRPs == {}
+MCDefaultRPs == {}
 =============================================================================
